@@ -5,6 +5,7 @@ from harness import core, gen, common
 
 ID = 'C09'
 LEAN_TARGETS = ['Props.C09']
+TIE_A = ['meth_project_eq']
 OBLIGATIONS = ['C09.vector_product_split', 'C09.involuted_product_split', 'C09.vector_blade_wedge', 'C09.vector_blade_inner', 'C09.blade_vector_inner',
                'C09.project_plus_remainder', 'C09.one_plus_unit_vector_not_versor']
 PARTIAL = ['factorise / basis reassembly, idempotence-containment-orthogonality of project and the grade formulas of join and meet have no Lean theorem: '
